@@ -359,7 +359,8 @@ def r4_eoi(c, facts):
         c.bad(R, 'eoi-span', 'the end-of-input span is no longer TokenList::end() .. TokenList::end() + 1 (at most one position past the end)')
     en = c.anchor(R, 'oal_model::lexicon::TokenList::end')
     eidx = MF.defs_index(en)
-    if P.call_blocks(en, 'tail') and any(MF.field_path(s['rv'].get('op', {'proj': []}))[-1:] == ['end'] or (s['rv']['r'] == 'use' and 'end' in MF.field_path(s['rv']['op']))
+    fp_ = lambda o: MF.field_path(o) if isinstance(o, dict) and 'proj' in o else []
+    if P.call_blocks(en, 'tail') and any(fp_(s['rv'].get('op'))[-1:] == ['end'] or (s['rv']['r'] == 'use' and 'end' in fp_(s['rv'].get('op')))
                                          for f2 in [en] + facts.closures_of(en) for b, blk in f2.blocks() for s in blk['stmts'] if s['s'] == 'assign' and s['rv']['r'] == 'use'):
         c.ok(R, {'TokenList::end': 'upper bound of the last token\'s range (0 when empty)'})
     else:
